@@ -55,6 +55,12 @@ def generate_consts():
     for n in names:
         out.append('Definition errno_%s : Z := %d.' % (n, getattr(errno, n)))
     out.append('Definition errno_errorcode : list Z := [%s].' % '; '.join(str(k) for k in sorted(errno.errorcode)))
+    # the OSError subclass CPython selects for OSError(errno, msg) — also what a failing system call raises
+    cls = {}
+    for k in sorted(set(errno.errorcode) | {getattr(errno, n) for n in names}):
+        c = type(OSError(k, 'x')).__name__
+        if c != 'OSError': cls[k] = c
+    out.append('Definition oserror_classes : list (Z * str) := [%s]%%N.' % '; '.join('(%d%%Z, %s)' % (k, lit(v)) for k, v in sorted(cls.items())))
     for n in ('SEEK_SET', 'SEEK_CUR', 'SEEK_END'):
         out.append('Definition os_%s : Z := %d.' % (n, getattr(os, n)))
     # hashlib of the running interpreter: the names hashlib.new accepts, and those whose hexdigest() needs a length
@@ -143,7 +149,7 @@ class T:
             # e.errno == errno.X   (either order)
             def side(x):
                 if self.exc and isinstance(x, ast.Attribute) and isinstance(x.value, ast.Name) and x.value.id == self.exc[0] and x.attr == 'errno':
-                    return self.exc[1], 'int'
+                    return '(os_errno %s)' % self.exc[1], 'int'        # the handler looks at the errno attribute only, never at the class
                 return self.pure(x)
             a, ta = side(e.left); b, tb = side(e.comparators[0])
             if ta != 'int' or tb != 'int': self.fail('comparison of %s and %s' % (ta, tb), e)
